@@ -41,6 +41,73 @@ def is_max_derived(c, n, inits, depth=0):
     return False
 
 
+def max_kind(c, n, inits, depth=0):
+    """'axis' when the max is an axis reduction (one shift per row), 'global2d' when it runs over all elements of a
+    two-dimensional array (one shift for the whole batch), 'vector' for the max of a one-dimensional value, else None"""
+    if depth > 4 or n is None:
+        return None
+    for x in walk(n):
+        if x.get("k") != "MethodCall":
+            continue
+        is_max = x["name"] == "max" and not x["args"]
+        if x["name"] in ("fold_axis", "map_axis", "reduce", "fold", "max_axis"):
+            for a in x["args"]:
+                for y in walk(a):
+                    if (y.get("k") == "MethodCall" and y["name"] == "max") or (y.get("k") == "Path" and "def" in y and (c.dfn(y["def"]) or {}).get("name") == "max"):
+                        is_max = True
+        if not is_max:
+            continue
+        if x["name"] in ("fold_axis", "map_axis", "max_axis"):
+            return "axis"
+        base = x["recv"]
+        while True:
+            b = peel_refs(base)
+            if b.get("k") == "MethodCall" and b["name"] in ("iter", "copied", "cloned", "into_iter", "view", "to_owned", "iter_mut"):
+                base = b["recv"]
+                continue
+            break
+        b = peel_refs(base)
+        if b.get("k") == "Path" and b.get("local") in inits and "Dim<" not in (c.ty(b.get("t")) or ""):
+            return max_kind(c, inits[b["local"]], inits, depth + 1)
+        ty = c.ty(b.get("at", b.get("t"))) or c.ty(b.get("t")) or ""
+        if "Dim<[usize; 2]>" in ty:
+            return "global2d"
+        if "Dim<[usize; 1]>" in ty:
+            return "vector"
+        return None
+    n0 = peel_refs(n)
+    if n0.get("k") == "Path" and n0.get("local") in inits:
+        return max_kind(c, inits[n0["local"]], inits, depth + 1)
+    for x in walk(n):
+        if x.get("k") == "Path" and x.get("local") in inits and x is not n:
+            kd = max_kind(c, inits[x["local"]], inits, depth + 1)
+            if kd:
+                return kd
+    return None
+
+
+def shift_operand(c, arg, inits, pm, closure_ctx):
+    """the `max` operand of the shifted argument (or None)"""
+    a = peel_refs(arg) if arg is not None else None
+    if a is None:
+        return None
+    if a.get("k") == "Binary" and a["op"] == "-":
+        return a["r"]
+    if a.get("k") == "Path" and "local" in a:
+        if a["local"] in inits:
+            return shift_operand(c, inits[a["local"]], inits, pm, closure_ctx)
+        clo = closure_ctx.get(a["local"])
+        if clo is not None:
+            call = pm.get(id(clo))
+            if call is not None and call.get("k") == "MethodCall":
+                recv = peel_refs(call["recv"])
+                if recv.get("k") == "Path" and recv.get("local") in inits:
+                    recv = peel_refs(inits[recv["local"]])
+                if recv.get("k") == "Binary" and recv["op"] == "-":
+                    return recv["r"]
+    return None
+
+
 def is_shifted(c, arg, inits, pm, closure_ctx):
     """arg of exp is `e - max`, or a closure parameter of a map over an array that is `a - max`"""
     a = peel_refs(arg)
@@ -53,7 +120,7 @@ def is_shifted(c, arg, inits, pm, closure_ctx):
         clo = closure_ctx.get(a["local"])
         if clo is not None:
             call = pm.get(id(clo))
-            if call is not None and call.get("k") == "MethodCall" and call["name"] in ("mapv", "map", "mapv_inplace", "mapv_into", "map_inplace"):
+            if call is not None and call.get("k") == "MethodCall" and call["name"] in ("mapv", "map", "mapv_inplace", "mapv_into", "map_inplace", "fold_axis", "fold", "map_axis", "for_each"):
                 recv = peel_refs(call["recv"])
                 if recv.get("k") == "Path" and recv.get("local") in inits:
                     recv = peel_refs(inits[recv["local"]])
@@ -66,6 +133,7 @@ def check_fn(fn):
     """Returns list of (node, shifted: bool) for exp sites in a function that also sums and takes ln / divides."""
     c = fn["crate"]
     exps, has_sum, has_ln_or_div = [], False, False
+    axis_sum = False
     closure_ctx = {}
     for n in walk(fn["body"]):
         k = n.get("k")
@@ -78,6 +146,8 @@ def check_fn(fn):
                 exps.append((n, n["recv"]))
             elif n["name"] in SUMS:
                 has_sum = True
+                if n["name"] in ("sum_axis", "fold_axis"):
+                    axis_sum = True
             elif n["name"] in ("ln", "log", "ln_1p"):
                 has_ln_or_div = True
         elif k == "Path" and "def" in n:
@@ -103,9 +173,14 @@ def check_fn(fn):
                 if recv.get("k") == "Path" and recv.get("local") in inits:
                     recv = peel_refs(inits[recv["local"]])
                 ok = recv.get("k") == "Binary" and recv["op"] == "-" and is_max_derived(c, recv["r"], inits)
-            out.append((node, ok))
+            out.append((node, ok, None))
         else:
-            out.append((node, is_shifted(c, arg, inits, pm, closure_ctx)))
+            ok = is_shifted(c, arg, inits, pm, closure_ctx)
+            kind = None
+            if ok and axis_sum:
+                op = shift_operand(c, arg, inits, pm, closure_ctx)
+                kind = max_kind(c, op, inits) if op is not None else None
+            out.append((node, ok, kind))
     return out
 
 
@@ -116,10 +191,13 @@ def run(res, F, scope, floor_note=""):
             continue
         sites = check_fn(fn)
         key = fn_key(fn)
-        for i, (node, ok) in enumerate(sites):
+        for i, (node, ok, kind) in enumerate(sites):
             inst = "%s : exp #%d inside a sum with ln/division" % (key, i)
             res.instance(inst)
-            if ok:
+            if ok and kind == "global2d":
+                res.violate("%s : global-shift" % key,
+                            "the exponentials are summed per row but shifted by one maximum taken over the whole matrix: a row far below that maximum underflows entirely (its sum is 0 or a floor value), so its log-sum-exp is wrong or not finite and depends on the other rows", fn_loc(fn, node.get("ln")))
+            elif ok:
                 res.ok()
                 res.sample({"site": inst, "form": "exp(v - max)"})
             else:
@@ -132,3 +210,46 @@ def run(res, F, scope, floor_note=""):
             seen.add(v.key)
             uniq.append(v)
     res.violations = uniq
+
+
+# ---------------------------------------------------------------------------------------------------------
+# exp-ratio rule: `exp(x) / (.. exp(x) ..)` is inf/inf = NaN once exp overflows (x > ~709 in f64, ~88 in f32) unless the
+# division sits under a test of the sign of x (the stable two-branch sigmoid) or the argument is shifted by a maximum.
+def exp_ratio_sites(fn):
+    """yields (division node, ok: bool, why) for every division whose numerator and denominator both depend on an exp"""
+    c = fn["crate"]
+    inits = let_inits(fn)
+    pm = parent_map(fn["body"])
+
+    def exp_args(n, depth=0, seen=None):
+        """arguments of the exp calls the expression depends on (through let bindings)"""
+        seen = seen if seen is not None else set()
+        out = []
+        if depth > 4 or n is None:
+            return out
+        for x in walk(n):
+            if x.get("k") == "MethodCall" and x["name"] == "exp":
+                out.append(x["recv"])
+            elif x.get("k") == "Path" and x.get("local") in inits and x["local"] not in seen:
+                seen.add(x["local"])
+                out += exp_args(inits[x["local"]], depth + 1, seen)
+        return out
+    for n in walk(fn["body"]):
+        if n.get("k") != "Binary" or n["op"] != "/":
+            continue
+        na, da = exp_args(n["l"]), exp_args(n["r"])
+        if not na or not da:
+            continue
+        # locals the exp arguments are computed from
+        arg_locals = set(x.get("local") for a in na + da for x in walk(a) if x.get("k") == "Path" and "local" in x)
+        shifted = all(peel_refs(a).get("k") == "Binary" and peel_refs(a)["op"] == "-" and is_max_derived(c, peel_refs(a)["r"], inits) for a in na + da)
+        guarded = False
+        cur = n
+        while id(cur) in pm:
+            par = pm[id(cur)]
+            if par.get("k") == "If":
+                cl = set(x.get("local") for x in walk(par["c"]) if x.get("k") == "Path" and "local" in x)
+                if cl & arg_locals:
+                    guarded = True
+            cur = par
+        yield n, (shifted or guarded), ("shifted by a maximum" if shifted else "under a test of the argument" if guarded else "unguarded")
